@@ -15,7 +15,7 @@ from .helpers import (
 from .errors import RequestError, BodyParsingError, BodySizeError
 
 
-MULTIPART_BOUNDARY_PATT = re.compile(r'^multipart/.+?boundary=(.+?)(;|$)')
+MULTIPART_BOUNDARY_PATT = re.compile(r'^multipart/.+?boundary=(.+?)(;|$)', re.I)
 
 
 def _iter_body(read, buff_size, *, content_length):
